@@ -17,8 +17,8 @@ MANIFEST = {
     'note': 'Trusted: engine, vf.symcbor, independent writer and routing model, z3. Regular expressions run '
             'concretely on a finite destination set (regex over arbitrary EIDs is outside the claim).',
     'ref': '5 C10'}
-BOUNDS = {'quick': dict(bundles=3, tables=14, destinations=5, fragments='bundle 2 and 3 may be fragments'),
-          'thorough': dict(bundles=3, tables=22, destinations=5, fragments='all may be fragments')}
+BOUNDS = {'quick': dict(bundles=3, tables=14, destinations=6, fragments='bundle 2 and 3 may be fragments'),
+          'thorough': dict(bundles=3, tables=22, destinations=6, fragments='all may be fragments')}
 ASSUMPTIONS = [
     'destinations and route patterns come from fixed lists; report-to is dtn:none (C19 covers reports)',
     'CRC type 0 on received bundles (C08 covers the CRC gate)',
@@ -28,7 +28,7 @@ QUICK_VALIDATE = 3
 MAX_PATHS = {'quick': 20000, 'thorough': 100000}
 
 NODE = 'dtn://node/'
-DESTS = ['dtn://a/x', 'dtn://b/y', 'ipn:1.2', NODE, 'dtn://node/svc']
+DESTS = ['dtn://a/x', 'dtn://b/y', 'ipn:1.2', NODE, 'dtn://node/svc', 'dtn://nod']       # (the last: a look-alike of the node ID)
 RX = {'A': r'^dtn://a/.*', 'ANY': r'.*', 'IPN': r'^ipn:1\.', 'NEVER': r'^never$', 'NODE': r'^dtn://node/.+'}
 ACTS = ['deliver', 'forward', 'delete']
 
@@ -53,6 +53,10 @@ def cases(tier):
     # bundles arriving back to back: the event loop runs only after all three were received
     for t in ([('ANY', 'forward')], [('A', 'forward'), ('ANY', 'deliver')], [('ANY', 'delete')]):
         out.append(dict(table=';'.join('%s=%s' % e for e in t), drain='end'))
+    # every bundle asks for status reports to a real endpoint: a report is evidence of processing, also for bundles
+    # that are deleted or match no route
+    for t in ([('ANY', 'delete')], [('A', 'delete'), ('ANY', 'forward')], [('ANY', 'deliver')], []):
+        out.append(dict(table=';'.join('%s=%s' % e for e in t), drain='each', rep=1))
     return out
 
 
@@ -91,6 +95,9 @@ def harness(case, tier):
         ident = [src, t, s]
         pri = dict(flags=1 if frag else 0, crc_type=0, destination=dest, source=src, report_to='dtn:none',
                    create_ts=[t, s], lifetime=3600000)
+        if case.get('rep'):
+            pri['report_to'] = 'dtn://rep/svc'
+            pri['flags'] |= 0x40000 | 0x20000 | 0x10000 | 0x4000
         if dest == NODE and not frag:
             # the administrative endpoint parses its payload: a well-formed (status) administrative record
             data = admin
@@ -123,7 +130,9 @@ def harness(case, tier):
             history.append(dict(ident=['none'], src=src0))
         # a fragment marked for delivery is held by reassembly, not delivered as such
         got_d = len(w.delivered) - before[0]
-        got_f = len(w.sent) - before[1]
+        new = w.sent[before[1]:]
+        reports = [d for d in new if bool((rfc9171.decode_bundle(d)['primary']['flags'] & 2) != 0)] if case.get('rep') else []
+        got_f = len(new) - len(reports)
         tag = 'dup' if dup else ('own' if own else 'fresh')
         want_d = 1 if (act == 'deliver' and not frag) else 0
         want_f = 1 if act == 'forward' else 0
@@ -132,6 +141,13 @@ def harness(case, tier):
                     detail=dict(i=i, dest=dest, table=table, action=act, got=got_d, want=want_d, frag=frag))
             c.prove(got_f == want_f, 'forwards-match-model[%s]' % tag,
                     detail=dict(i=i, dest=dest, table=table, action=act, got=got_f, want=want_f, frag=frag))
+        if case.get('rep'):
+            if dup or own:
+                c.prove(len(reports) == 0, 'no-report-for-a-bundle-not-processed[%s]' % tag, detail=dict(i=i, reports=len(reports)))
+            else:
+                c.prove(len(reports) <= 1, 'at-most-one-report-per-bundle', detail=len(reports))
+                if act is not None and not (frag and act == 'deliver'):
+                    c.prove(len(reports) == 1, 'processed-bundle-is-reported[%s]' % act, detail=dict(i=i, reports=len(reports)))
         exp_deliver += want_d
         exp_forward += want_f
     if case['drain'] == 'end':
